@@ -6,7 +6,7 @@ CDB = "compile flags taken from ninja -t compdb of /repo/_build (or a throw-away
 
 PROPS = {
     "C12": {
-        "rules": [rules_dd.rule_F3, rules_dd.rule_pairing, rules_dd.rule_F11c],
+        "rules": [rules_dd.rule_F3, rules_dd.rule_F3b, rules_dd.rule_pairing, rules_dd.rule_F11c],
         "level": "other",
         "explanation": "Decides structural necessary conditions of the directory being a faithful persistent map: "
                        "(F3) on every non-failing path of every function that stores to dd_t.{tag,ref,offset,length} the last "
@@ -45,7 +45,7 @@ PROPS["C17"] = {
 }
 
 PROPS["C02"] = {
-    "rules": [rules_bounds.rule_F2_arrays, rules_dd.rule_F3, rules_dd.rule_F11b, rules_dd.rule_F11c],
+    "rules": [rules_bounds.rule_F2_arrays, rules_dd.rule_F3, rules_dd.rule_F3b, rules_dd.rule_F11b, rules_dd.rule_F11c],
     "level": "other",
     "explanation": "TODO",
     "rule_text": "TODO",
